@@ -357,6 +357,9 @@ func c05Setup(t *c05TB, hfmode string, hook func(*config.Blockchain)) (*c05Chain
 	if len(u.hashes) != c05AFixed {
 		return nil, errors.New("universe layout")
 	}
+	if err := c01RegisterContracts(t, u); err != nil {
+		return nil, err
+	}
 	return c, nil
 }
 
@@ -455,6 +458,11 @@ func (c *c05Chain) c05BuildTx(op c05Op) (*transaction.Transaction, error) {
 		return nil, fmt.Errorf("account %d cannot sign", op.F)
 	}
 	h := func(i int) util.Uint160 {
+		if i > 100 && i <= 114 { // the storage contract deployed by account i-100 (harness/c01.go)
+			if cc, err := c01Compile(c.t, u.hashes[i-100]); err == nil {
+				return cc.v1.Hash
+			}
+		}
 		if i < 0 || i >= len(u.hashes) {
 			return util.Uint160{}
 		}
